@@ -53,6 +53,16 @@ def seq_extend(I, target, val):
         val = coerce_iter_for_extend(I, target, val)
         if isinstance(val, SSeq):
             raise OutOfSubset('extend concrete bytearray with symbolic-length bytes')
+        if isinstance(val, SView):
+            # (added for C18; crashed before) a concrete bytearray extended by an array window of symbolic length becomes, IN PLACE
+            # (the holders keep the identical object), the prefixed view <its items> <prefix of val> <window of val>
+            pre = list(target.items) + list(val.pre)
+            arr, off, ln, br = val.arr, val.off, val.ln, getattr(val, 'byte_range', False)
+            target.__dict__.clear()
+            target.__class__ = SView
+            SView.__init__(target, arr, off, ln, 'bytearray', pre)
+            target.byte_range = br
+            return
         target.items.extend(list(val.items))
         return
     if isinstance(val, SSeq):
@@ -564,6 +574,23 @@ def sym_str_method(I, o, name, a, k):
                 parts.append([])
             else:
                 parts[-1].append(c)
+        return PList([ops.mk_seq('str', p) for p in parts])
+    if name == 'rsplit':
+        # added for C20 (uri_helper.address_from_env): str.rsplit(sep, maxsplit) with a one-character separator, scanning from the right
+        sep = a[0] if a else k.get('sep')
+        maxsplit = a[1] if len(a) > 1 else k.get('maxsplit', -1)
+        if sep is None or not isinstance(maxsplit, int):
+            raise OutOfSubset('str.rsplit() on whitespace / with a symbolic maxsplit on a symbolic string')
+        sc = M.str_chars(sep)
+        if len(sc) != 1:
+            raise OutOfSubset('multi-char separator on symbolic string')
+        parts = [[]]
+        for c in reversed(chars):
+            r = py_eq(I, c, sc[0])
+            if (maxsplit < 0 or len(parts) <= maxsplit) and (r is True or (r is not False and I.path.decide(r.t))):
+                parts.insert(0, [])
+            else:
+                parts[0].insert(0, c)
         return PList([ops.mk_seq('str', p) for p in parts])
     if name == 'find' or name == 'index':
         pc = M.str_chars(a[0])
@@ -1482,6 +1509,7 @@ _uri.install(EXTERNALS, _fn)
 # ------------------------------------------------------------------ numpy (1-D arrays; added for C13 / C16)
 _np.install(EXTERNALS, _fn)
 _np.install_c13(EXTERNALS, _fn)       # np.argmax, np.fromiter(dtype=int).astype().tobytes()
+_np.install_c16(EXTERNALS, _fn)       # np.ravel, np.concatenate (C16: _calc_residual)
 
 
 # ------------------------------------------------------------------ builtin map (lazy, as in CPython; added for C13)
